@@ -18,21 +18,24 @@ func runC19(opt *Options) int {
 	ints := map[string]int{"VerifC19LineMax": line, "VerifC19BlockMax": block, "VerifC19GroupLead": gl, "VerifC19GroupKey": gk, "VerifC19GroupTail": gt}
 	lr := &laRun{
 		Opt:  opt,
-		Pkgs: []string{"config/parse"},
+		Pkgs: []string{"config/parse", "comments"},
 		Kernels: []layera.Kernel{
 			{Name: "K7.line", Pkg: "config/parse", Harness: "VerifHarness_C19_Line", Unwind: 40, SetInts: ints},
 			{Name: "K7.block", Pkg: "config/parse", Harness: "VerifHarness_C19_Block", Unwind: 40, SetInts: ints},
 			{Name: "K7.group", Pkg: "config/parse", Harness: "VerifHarness_C19_Group", Unwind: 48, SetInts: ints, MaxPaths: 2000000},
 			{Name: "K7.command", Pkg: "config/parse", Harness: "VerifHarness_C19_Command", Unwind: 24},
 			{Name: "K7.marker", Pkg: "config/parse", Harness: "VerifHarness_C19_Marker", Unwind: 48},
+			{Name: "K7.variables", Pkg: "comments", Harness: "VerifHarness_C19_Variables", Unwind: 64},
+			{Name: "K7.interface", Pkg: "comments", Harness: "VerifHarness_C19_Interface", Unwind: 64},
+			{Name: "K7.nomarker", Pkg: "comments", Harness: "VerifHarness_C19_NoMarker", Unwind: 64},
 		},
-		Funcs:  []string{"parse.CommentToString", "parse.stripTrailingWhitespace", "parse.isWhitespace", "parse.SettingLines", "parse.Command"},
+		Funcs:  []string{"comments.parseGenDecl", "comments.parseFunctions", "comments.parseInterface", "comments.parseInterfaceMethods", "comments.parseRawLines", "go/ast (Pos, Ident.String, ... executed like the code under test)", "parse.CommentToString", "parse.stripTrailingWhitespace", "parse.isWhitespace", "parse.SettingLines", "parse.Command"},
 		Bounds: fmt.Sprintf("comment groups of <= 2 comments; `//` body <= %d bytes, `/* */` body <= %d bytes with <= 2 newlines (group of two comments: each body = <=%d symbolic bytes + `goverter:` + <=%d symbolic bytes + <=%d symbolic bytes, in the layouts line/line, line/block, block/line, two-line block); every byte symbolic ASCII; unwind asserted", line, block, gl, gk, gt),
 		Assume: []string{
 			"go/parser's guarantees on Comment.Text: `//` comments contain no newline, carriage returns are stripped, a block comment body does not contain its terminator",
 			"ASCII only: every symbolic byte < 0x80 (non-ASCII white space is outside the claim)",
 			"strings.* and bufio.Scanner(ScanLines) are replaced by byte-loop models validated natively against the stdlib on every build of /verif/models",
-			"which AST node's Doc is consulted (go/parser + comments.parseGenDecl) is outside this kernel",
+			"declaration kernels (K7.variables/interface/nomarker) build go/ast nodes directly: which Doc go/parser attaches to which node (detached, trailing comments) is go/parser's contract and outside",
 		},
 	}
 	return lr.finish(lr.run(), nil)
